@@ -229,6 +229,26 @@ theorem metadata_agrees (fs : FS) (ops : List Op) (f1 f2 : Option Nat)
         rw [hd] at hg
         cases raised <;> simp only [true_and] <;> exact hg
 
+/-- **Creation failures are invisible**: content that was created inside the
+limbo area `L` while the transform was being built (any entries, any number)
+disappears without trace when `finalize` removes the limbo area — every path
+outside `L` reads as before. -/
+theorem finalize_discards_limbo (fs created : FS) (L q : Path)
+    (hc : ∀ e ∈ created, L.isPrefixOf e.1 = true) (hq : L.isPrefixOf q = false) :
+    get (deleteAny (fs ++ created) L) q = get fs q := by
+  rw [get_deleteAny]
+  simp only [hq, Bool.false_eq_true, if_false]
+  induction fs with
+  | nil =>
+    simp only [List.nil_append]
+    rw [get_eq_none_of_not_key]
+    · rfl
+    · intro e he heq
+      have := hc e he
+      rw [heq, hq] at this
+      cases this
+  | cons e fs ih => simp only [List.cons_append, get_cons, ih]
+
 /-- With the deletions performed *before* the metadata update (the order found
 in the code at the pinned commit) a failure while discarding replaced content
 leaves the new file layout described by the old metadata. -/
